@@ -153,6 +153,13 @@ def check(P, R):
 
     # ---- b: error bodies
     n_b = 0
+    # what an error built without a body shows: HTTPError.__init__ must not fill the body from the exception it is given (the page inserts {e.body} verbatim)
+    hi_ = P.func('ombott.response:HTTPError.__init__')
+    fallback_from_exc = []
+    for st_ in walk_shallow(hi_.node):
+        if isinstance(st_, ast.Assign) and any(isinstance(t_, ast.Name) and t_.id == hi_.params[2] for t_ in st_.targets):
+            if any(isinstance(x_, ast.Name) and x_.id in hi_.params[3:5] for x_ in ast.walk(st_.value)):
+                fallback_from_exc.append(st_)
     for f in P.all_funcs():
         if f.module.name.endswith(('server_adapters',)):
             continue
@@ -162,6 +169,13 @@ def check(P, R):
                 for k in c.keywords:
                     if k.arg in ('body', 'text'):
                         body = k.value
+                if body is None and dotted(c.func) == 'HTTPError' and fallback_from_exc:
+                    exc_arg = c.args[2] if len(c.args) > 2 else next((k.value for k in c.keywords if k.arg == 'exception'), None)
+                    if exc_arg is not None and not is_const(exc_arg, None):
+                        R.ob('C20.b', f, c, False, text=f'`{short(c, 60)}`: body of an error built from an exception', detail=
+                             f'this error is built without a body, and HTTPError.__init__ then fills it in from the exception (`{short(fallback_from_exc[0])}`): the exception '
+                             f'text - e.g. int() quoting a query parameter - is inserted into the page verbatim through {{e.body}}, with debug off',
+                             why='error pages contain request-controlled text only in HTML-escaped form', key_extra='body-from-exception')
                 if body is None:
                     continue
                 ns = f.cfg.node_of_stmt(c)
@@ -309,6 +323,22 @@ def check(P, R):
                     mp_ = None
                 if isinstance(mp_, dict) and all(isinstance(k_, str) and len(k_) == 1 for k_ in mp_):
                     order = ['&'] + sorted(k_ for k_ in mp_ if k_ != '&') if '&' in mp_ else sorted(mp_)    # simultaneous: no order effects
+                    inner = tr_[0]
+            else:
+                # any table that can be evaluated from the literals of the module: a dict keyed by code point / character, or a sequence indexed by code point
+                try:
+                    tv_ = T.ceval(he_, tr_[0].args[0])
+                except T.CannotEval:
+                    tv_ = None
+                mp_ = None
+                if isinstance(tv_, dict):
+                    mp_ = {(chr(k_) if isinstance(k_, int) else k_): v_ for k_, v_ in tv_.items()}
+                elif isinstance(tv_, (list, tuple, str)):
+                    mp_ = {chr(i_): v_ for i_, v_ in enumerate(tv_) if v_ != chr(i_)}      # code points beyond the end are left alone
+                if mp_ is not None:
+                    want_ = {'&': '&amp;', '<': '&lt;', '>': '&gt;', '"': '&quot;'}
+                    good_ = [k_ for k_ in mp_ if isinstance(k_, str) and len(k_) == 1 and isinstance(mp_[k_], str) and mp_[k_].startswith('&') and mp_[k_].endswith(';')]
+                    order = (['&'] if '&' in good_ else []) + sorted(k_ for k_ in good_ if k_ != '&')
                     inner = tr_[0]
     if order is None:
         R.undecided('C20.e', he_, he_.node, 'html_escape', 'neither a chain of replace() calls with constant arguments nor a loop over a constant table')
